@@ -12,10 +12,14 @@ def fn (l : List Rat) : Nat → Rat := fun k => l.getD k 0
 
 def handle : List String → Option String
   | "divmat" :: rest => do
-    let ((shape, h), _) ← (do let s ← P.list P.nat; let h ← P.list P.rat; pure (s, h)).run rest
-    let cols := (List.range (numFaces shape)).map fun f =>
-      " ".intercalate (((List.range (numCells shape)).filter fun c => divEntry shape h c f ≠ 0).map fun c =>
-        s!"{c}:{showRat (divEntry shape h c f)}")
+    -- asm = 1: the matrix as the code assembles it (COO triplets summed, `divAssembled`); asm = 0: pointwise `divEntry`
+    let ((shape, h, asm), _) ← (do let s ← P.list P.nat; let h ← P.list P.rat; let a ← P.nat; pure (s, h, a)).run rest
+    let nf := numFaces shape
+    let tbl := if asm = 1 then divAssembled shape h else []
+    let entry : Nat → Nat → Rat := fun c f => if asm = 1 then tbl.getD (c * nf + f) 0 else divEntry shape h c f
+    let cols := (List.range nf).map fun f =>
+      " ".intercalate (((List.range (numCells shape)).filter fun c => entry c f ≠ 0).map fun c =>
+        s!"{c}:{showRat (entry c f)}")
     pure (" ; ".intercalate cols)
   | "div" :: rest => do
     let ((shape, h, u, dense), _) ← (do
@@ -32,19 +36,22 @@ def handle : List String → Option String
   | "f2c" :: rest => do
     let ((shape, pt, u), _) ← (do
       let s ← P.list P.nat; let pt ← P.list P.rat; let u ← P.list P.rat; pure (s, pt, u)).run rest
-    pure (showRats ((boxF shape).flatMap fun idx => (List.range shape.length).map fun a => faceToCell shape (fn u) pt idx a))
-  | "c2f" :: mode :: rest => do
-    let ((shape, qs), _) ← (do let s ← P.list P.nat; let qs ← P.rep (P.list P.rat) s.length; pure (s, qs)).run rest
-    let m ← (if mode = "arithmetic" then some AvgMode.arithmetic else if mode = "harmonic" then some AvgMode.harmonic else none)
-    let q : Nat → Nat → Rat := fun a c => (qs.getD a []).getD c 0
-    pure (showRats ((List.range (numFaces shape)).map (cellToFace shape m q)))
+    -- the tables as the code builds them: zeros + two slice accumulations per component (`faceToCellTable`)
+    let tbls := (List.range shape.length).map fun a => faceToCellTable shape (fn u) pt a
+    pure (showRats ((List.range (numCells shape)).flatMap fun c => tbls.map fun t => t.getD c 0))
   | "c2fq" :: mode :: kind :: rest => do
     -- full cell array: Fortran-flattened cell index, trailing component axes in C order
     let ((shape, arr), _) ← (do let s ← P.list P.nat; let q ← P.list P.rat; pure (s, q)).run rest
     let m ← (if mode = "arithmetic" then some AvgMode.arithmetic else if mode = "harmonic" then some AvgMode.harmonic else none)
     let k ← (if kind = "scalar" then some QKind.scalar else if kind = "vector" then some QKind.vector
              else if kind = "tensor" then some QKind.tensor else none)
-    pure (showRats ((List.range (numFaces shape)).map (cellToFaceQ shape m k (fn arr))))
+    pure (" ".intercalate ((List.range (numFaces shape)).map fun f =>
+      match cellToFaceQ shape m k (fn arr) f with | some v => showRat v | none => "nan"))
+  | "c2fshape" :: rest => do
+    -- dispatch on the trailing axes of cell_qty.shape
+    let ((dim, tr), _) ← (do let d ← P.nat; let t ← P.list P.nat; pure (d, t)).run rest
+    pure (match kindOf dim tr with
+      | .ok .scalar => "scalar" | .ok .vector => "vector" | .ok .tensor => "tensor" | .error e => e.show)
   | "tang" :: rest => do
     let ((shape, u), _) ← (do let s ← P.list P.nat; let u ← P.list P.rat; pure (s, u)).run rest
     pure (sep ((List.range (shape.length - 1)).map fun i => showRats ((List.range (numFaces shape)).map (tang shape (fn u) i))))
